@@ -188,12 +188,32 @@ def toBytes (r : Req) : Except PyExc Bytes :=
     | .error e => .error e
     | .ok status => .ok (status ++ [13, 10] ++ latin1Replace (fieldsToStr r.fields) ++ [13, 10])
 
+/-- text after the last `@` (the whole text when there is none): `authority.rpartition('@')[2]` -/
+def afterLastAt (s : Str) : Str :=
+  go s s
+where
+  go : Str → Str → Str
+    | [], best => best
+    | c :: t, best => if c = 64 then go t t else go t best
+
+/-- `WebProcessorSession._strip_userinfo` (the repaired code; KNOWN_FINDINGS.txt `fixed:` C16):
+the URL without `user:password@` -/
+def stripUserinfo (url : Str) : Str :=
+  match findSub url (lit "://") with
+  | none => url
+  | some i =>
+    let rest := url.drop (i + 3)
+    let authority := rest.takeWhile (fun c => c != 47 && c != 63 && c != 35)
+    if authority.contains 64 then url.take (i + 3) ++ afterLastAt authority ++ rest.drop authority.length
+    else url
+
 /-- `WebProcessorSession._add_referrer` inside `_populate_common_request`:
-no referrer from an https page to an http URL, and none over one that is already set -/
+no referrer from an https page to an http URL, none over one that is already set, and never the
+user-info of the referring page -/
 def populateReferrer (f : Fields) (parentUrl : Str) (scheme : Str) : Fields :=
   if parentUrl ≠ [] ∧ (getField f (lit "Referer")).getD [] = [] then
     if startsWith parentUrl (lit "https://") && scheme = lit "http" then f
-    else setField f (lit "Referer") parentUrl
+    else setField f (lit "Referer") (stripUserinfo parentUrl)
   else f
 
 /-! ### basic authentication text (concrete instance of the `auth` parameter) -/
